@@ -43,7 +43,7 @@ func checkC27(c *Check) {
 	c.Rule = "TLC (Detect.tla) enumerates the table (first byte: 'c', 'C', 0x81, other letters/bytes, empty input) x (version 0, 1, 2, 9, 10, 127, 128, 300) x (valid / invalid / missing body) x (universal unmarshal from document and reader, universal decoder from document and reader, format-specific unmarshal and decode) with the expected outcome; each case is built as a real document and run; additionally every corpus document, valid and truncated, must give the same value / events / error through the universal and the specific entry point, and every encoder-produced document carries version 0. non-trivial = all; distinct = distinct (case | document, entry)"
 	c.Assumptions = []string{"harness abs/concretiser", "TLC"}
 	cfg := configuration.New()
-	params := paramsModuleExt("Integers", nil, "FirstV == {-1, 99, 67, 129, 100, 0, 255, 32}\nVersV == {0, 1, 2, 9, 10, 127, 128, 300}")
+	params := paramsModuleExt("Integers", nil, "FirstV == {-1, 99, 67, 129, 100, 0, 255, 32}\nVersV == {0, 1, 2, 9, 10, 127, 128, 300, 1000000, 1000001}")
 	cfgText := "INIT Init\nNEXT Next\nINVARIANT EntryIndependent\nINVARIANT Emit\nCHECK_DEADLOCK FALSE\nCONSTANTS\n FirstBytes <- FirstV\n Versions <- VersV\n"
 	var n int64
 	res := mustTLC(TLCRun{Module: "Detect", Cfg: cfgText, Extra: map[string]string{"VerifParams.tla": params}, Workers: 2, Timeout: 5 * time.Minute,
@@ -58,7 +58,14 @@ func checkC27(c *Check) {
 				doc = append(doc, byte(dc.C.First))
 				textual := dc.C.First != 129
 				if textual {
-					doc = append(doc, []byte(fmt.Sprint(dc.C.Ver))...)
+					vs := fmt.Sprint(dc.C.Ver)
+					switch dc.C.Ver { // stand-ins for 2^64 and 2^64+1 (low 64 bits 0 and 1)
+					case 1000000:
+						vs = "18446744073709551616"
+					case 1000001:
+						vs = "18446744073709551617"
+					}
+					doc = append(doc, []byte(vs)...)
 					switch dc.C.Body {
 					case "valid":
 						doc = append(doc, []byte(" 1")...)
@@ -66,7 +73,14 @@ func checkC27(c *Check) {
 						doc = append(doc, []byte(" [")...)
 					}
 				} else {
-					doc = append(doc, ulebBytes(dc.C.Ver)...)
+					switch dc.C.Ver {
+					case 1000000:
+						doc = append(doc, 0x80, 0x80, 0x80, 0x80, 0x80, 0x80, 0x80, 0x80, 0x80, 0x02)
+					case 1000001:
+						doc = append(doc, 0x81, 0x80, 0x80, 0x80, 0x80, 0x80, 0x80, 0x80, 0x80, 0x02)
+					default:
+						doc = append(doc, ulebBytes(dc.C.Ver)...)
+					}
 					switch dc.C.Body {
 					case "valid":
 						doc = append(doc, 1)
@@ -147,7 +161,9 @@ func checkC27(c *Check) {
 		}})
 	c.AddTLC(res)
 
-	// universal == specific on corpus documents; encoders write version 0
+	// universal == specific on corpus documents; encoders write version 0.  One universal
+	// decoder object serves all documents, CBE and CTE interleaved.
+	shared := ce.NewCEDecoder(cfg)
 	for _, d := range ioDocs(c, map[string]int{"quick": 40, "thorough": 300}[c.Tier]) {
 		var spec, uni ioResult
 		if d.Format == "cbe" {
@@ -161,6 +177,28 @@ func checkC27(c *Check) {
 		if spec.Panicked == nil && !spec.Hung && (uni.Val != spec.Val || uni.Err != spec.Err || uni.Panicked != nil || uni.Hung) {
 			c.Violation(fmt.Sprintf("universal unmarshal of %s document %x gives {%s}, the %s entry point {%s}", d.Format, d.Doc, uni, d.Format, spec),
 				map[string]interface{}{"kind": "detect-corpus", "doc": hex.EncodeToString(d.Doc), "format": d.Format})
+		}
+		for _, viaReader := range []bool{false, true} {
+			recU, recS := &Recorder{}, &Recorder{}
+			var errU, errS error
+			var specDec ce.Decoder = ce.NewCTEDecoder(cfg)
+			if d.Format == "cbe" {
+				specDec = ce.NewCBEDecoder(cfg)
+			}
+			p1, h1 := runWithWatchdog(20*time.Second, func() {
+				if viaReader {
+					errU = shared.Decode(bytes.NewReader(d.Doc), recU)
+				} else {
+					errU = shared.DecodeDocument(d.Doc, recU)
+				}
+			})
+			p2, h2 := runWithWatchdog(20*time.Second, func() { errS = specDec.DecodeDocument(d.Doc, recS) })
+			c.Count(fmt.Sprint("shared", viaReader, hex.EncodeToString(d.Doc)), true)
+			c.AddTraces(1)
+			if p2 == nil && !h2 && (p1 != nil || h1 || (errU == nil) != (errS == nil) || evsString(recU.Evs) != evsString(recS.Evs)) {
+				c.Violation(fmt.Sprintf("a reused universal decoder (reader=%v) decodes %s document %x as [%s] err=%v; the %s decoder gives [%s] err=%v", viaReader, d.Format, d.Doc, evsString(recU.Evs), errU, d.Format, evsString(recS.Evs), errS),
+					map[string]interface{}{"kind": "detect-shared-decoder", "doc": hex.EncodeToString(d.Doc), "format": d.Format})
+			}
 		}
 		if len(d.Doc) >= 2 && !bytes.HasPrefix(d.Doc, []byte{0x81, 0}) && !bytes.HasPrefix(d.Doc, []byte("c0")) && d.Desc != "signature only" {
 			c.Violation(fmt.Sprintf("encoder-produced %s document does not carry version 0: %x", d.Format, d.Doc[:2]), map[string]interface{}{"kind": "version-written", "doc": hex.EncodeToString(d.Doc)})
